@@ -48,6 +48,8 @@ structure Cfg where
   msTicks    : Nat := 1
   -- `listen = false`: the breaker has no event listener at all (no `transition` lines in the log; same behaviour)
   listen     : Bool := true
+  -- the `on_state_transition` listener also reads `state_sync()` inside its callback and logs it (`lis:trs`, `listen=2`)
+  listenSync : Bool := false
   -- the classifier was installed by `classify_response`: the wrapped service has `Error = Infallible` (its errors are
   -- encoded in the response), so its readiness cannot fail
   respCls    : Bool := false
@@ -65,7 +67,9 @@ inductive CEv
   | innerDone (c k : Nat) (o : Out)
   | innerDrop (c k : Nat)
   | result (c : Nat) (r : Res)
-  | transition (a b : St)
+  -- `seen`: what a listener that reads `state_sync()` inside its `on_state_transition` callback gets: `transition_to` emits
+  -- the event BEFORE it assigns `self.state` and stores the lock-free view
+  | transition (a b : St) (seen : St)
   | manual (what : String)
   | views (s : String)
   | fbCall (c : Nat)
@@ -77,7 +81,7 @@ def CEv.toEv : CEv → Ev
   | .innerDone c k o => .innerDone c k o
   | .innerDrop c k => .innerDrop c k
   | .result c r => .result c r
-  | .transition a b => .raw s!"transition {a.name} {b.name}"
+  | .transition a b _ => .raw s!"transition {a.name} {b.name}"
   | .manual w => .raw s!"manual {w}"
   | .views s => .probe s
   | .fbCall c => .raw s!"fallback_call {c}"
@@ -117,13 +121,16 @@ def stats (cfg : Cfg) (c : Circuit) : Nat × Nat × Nat × Nat :=
 def clearWindow (c : Circuit) : Circuit :=
   { c with cwin := [], recs := [], failN := 0, succN := 0, totalN := 0, slowN := 0, hist := [] }
 
-/-- `transition_to`: no-op (and no event) when the state does not change -/
+/-- `transition_to`: no-op (and no event) when the state does not change. The `StateTransition` event is emitted FIRST, while
+`self.state` and the lock-free view still hold the old state: a listener that calls `state_sync()` / `is_open()` from its
+callback reads `c.mirror` — the view BEFORE this transition (third field of the event). Only then are the state, the
+lock-free view, the instant of the change, the window and the half-open bookkeeping updated, together. -/
 def transitionTo (c : Circuit) (s : St) (now : Nat) : Circuit × List CEv :=
   if c.st = s then (c, [])
   else
     ({ clearWindow c with st := s, mirror := s, lastChange := now, hoAdmitted := 0, hoSuccesses := 0,
                           episode := c.episode + 1, released := 0, ownSucc := 0 },
-     [.transition c.st s])
+     [.transition c.st s c.mirror])
 
 /-- `cleanup_old_records`: pop from the front while older than the window -/
 def cleanup (cfg : Cfg) (c : Circuit) (now : Nat) : Circuit :=
@@ -459,6 +466,7 @@ inductive Setter
   | cls (k : Nat)        -- `failure_classifier(..)`
   | clsr (k : Nat)       -- `classify_response(..)`
   | listenTr             -- `on_state_transition(..)`
+  | listenSync           -- `on_state_transition(..)` with a listener that reads `state_sync()` in its callback
   | other                -- `name(..)`, the other `on_*` listeners: nothing the breaker's behaviour depends on
 deriving DecidableEq, Repr
 
@@ -492,6 +500,7 @@ structure BState where
   cls       : Nat := 0
   respCls   : Bool := false
   listen    : Bool := false
+  listenSync : Bool := false
 deriving Repr
 
 def applySetter (b : BState) : Setter → BState
@@ -507,6 +516,7 @@ def applySetter (b : BState) : Setter → BState
   | .cls k => { b with cls := k, respCls := false }
   | .clsr k => { b with cls := k, respCls := true }
   | .listenTr => { b with listen := true }
+  | .listenSync => { b with listen := true, listenSync := true }
   | .other => b
 
 /-- `build()`: `msTicks` = clock ticks per millisecond (the builder's default wait is 30 s) -/
@@ -515,7 +525,7 @@ def BState.toCfg (b : BState) (msTicks : Nat) (fallback : Bool) : Cfg :=
     minCalls := b.minCalls.getD b.size,
     frNum := b.frNum, frDen := b.frDen, slowMs := b.slow, srNum := b.srNum, srDen := b.srDen,
     waitMs := b.wait, permitted := b.permitted, cls := b.cls, fallback := fallback, msTicks := msTicks,
-    listen := b.listen, respCls := b.respCls }
+    listen := b.listen, listenSync := b.listenSync, respCls := b.respCls }
 
 def newBuilder (msTicks : Nat) : BState := { wait := 30000 * msTicks }
 
@@ -583,6 +593,7 @@ def parseSetter (s : String) : Option Setter :=
   | ["cls", v] => some (.cls (v.toNat?.getD 0))
   | ["clsr", v] => some (.clsr (v.toNat?.getD 0))
   | ["lis", "tr"] => some .listenTr
+  | ["lis", "trs"] => some .listenSync
   | ["lis", _] => some .other
   | ["name", _] => some .other
   | _ => none
@@ -601,7 +612,7 @@ def classicChain (kv : Kv) (all : Bool) : List Setter :=
   ((opt "size" "10").map (fun v => Setter.size (v.toNat?.getD 10))).toList ++
   ((opt "wait" "1000").map (fun v => Setter.wait (waitOf v))).toList ++
   ((opt "permitted" "1").map (fun v => Setter.perm (v.toNat?.getD 1))).toList ++
-  (if kv.nat "listen" 1 != 0 then [Setter.listenTr] else []) ++
+  (if kv.nat "listen" 1 == 2 then [Setter.listenSync] else if kv.nat "listen" 1 != 0 then [Setter.listenTr] else []) ++
   (if kv.str "wtype" "count" = "time" then [Setter.wtype true, .wdur (kv.nat "wdur" 1000)] else []) ++
   ((kv.optNat "min").map Setter.minCalls).toList ++
   ((kv.optNat "slow").map (fun n => [Setter.slow n, .sr sr.1 sr.2])).getD [] ++
@@ -669,7 +680,12 @@ def machine : Machine where
           | .manual w => .manual s!"{w} svc={k}"
           | .views v => .views s!"{v} svc={k}"
           | e => e
-        ((cfg, { multi := m', owner := owner }), evs.map (fun p => (tagged p.2).toEv))
+        -- a listener that reads `state_sync()` in its callback logs what it read
+        let render (e : CEv) : Ev :=
+          match e with
+          | .transition a b m => if cfg.listenSync then .raw s!"transition {a.name} {b.name} sync={m.name}" else e.toEv
+          | e => (tagged e).toEv
+        ((cfg, { multi := m', owner := owner }), evs.map (fun p => render p.2))
     | none => ((cfg, ms), [])
   now := fun (_, ms) => ms.multi.now
 
